@@ -175,6 +175,21 @@ def column_stores(stmts):
     return out
 
 
+def _unwrap_array(v):
+    """strip conversions that keep the element values: X.to_numpy(..), X.values, np.asarray(X), X.astype(bool)"""
+    while True:
+        if isinstance(v, ast.Call) and isinstance(v.func, ast.Attribute) and v.func.attr in ("to_numpy",) :
+            v = v.func.value
+        elif isinstance(v, ast.Call) and isinstance(v.func, ast.Attribute) and v.func.attr == "astype" and len(v.args) == 1 and U(v.args[0]) in ("bool", "np.bool_"):
+            v = v.func.value
+        elif isinstance(v, ast.Attribute) and v.attr == "values":
+            v = v.value
+        elif isinstance(v, ast.Call) and call_name(v) in ("np.asarray", "np.array") and v.args:
+            v = v.args[0]
+        else:
+            return v
+
+
 def dose_table(e):
     """name of the table whose 'dose' column expression e compares, or None"""
     for n in ast.walk(e):
@@ -230,11 +245,11 @@ def r3(ctx):
         for st in stmts:
             for n in ast.walk(st):
                 if isinstance(n, (ast.Assign,)) and dose_table(inline(n.value, env)) is not None:
-                    v = inline(n.value, env)
+                    v = _unwrap_array(inline(n.value, env))
                     boolean = isinstance(v, ast.Compare) or (isinstance(v, ast.BinOp) and isinstance(v.op, (ast.BitOr, ast.BitAnd))) \
                         or (isinstance(v, ast.UnaryOp) and isinstance(v.op, ast.Invert)) or (isinstance(v, ast.Call) and (call_name(v) or "").startswith("np.logical"))
                     if boolean:
-                        cands.append(n.value)
+                        cands.append(_unwrap_array(n.value))
         full = []
         for c in cands:
             e = subst_columns(c, {k: v for k, v in cols.items() if k[1] not in ("dose", "name")}, env)
@@ -256,6 +271,10 @@ def r3(ctx):
                         sentinel_ok = True
                     if isinstance(n, ast.Call) and attr_tail(n) in ("where", "mask") and any(U(a) in ("CONTROL_SENTINEL_VALUE", "-1") for a in n.args):
                         sentinel_ok = True
+                    # ids[is_control] = SENTINEL on a plain array, the mask being a control predicate found above
+                    if isinstance(n, ast.Assign) and isinstance(n.targets[0], ast.Subscript) and isinstance(n.targets[0].value, ast.Name) and U(n.value) in ("CONTROL_SENTINEL_VALUE", "-1") \
+                            and isinstance(n.targets[0].slice, ast.Name) and dose_table(inline(n.targets[0].slice, env)) is not None:
+                        sentinel_ok = True
     if not found:
         raise AnalysisError(f"{f.site()}: no expression comparing the dose column found in the encoder or its helpers - control detection is undecided")
     good = [x for x in found if x[1]]
@@ -265,6 +284,26 @@ def r3(ctx):
     if not sentinel_ok:
         raise AnalysisError(f"{f.site()}: cannot find where the control rows receive CONTROL_SENTINEL_VALUE (.loc store / where / mask)")
     ctx.ok("R3", f"{f.site()}::sentinel-written", "control rows get CONTROL_SENTINEL_VALUE")
+
+
+def _positions_as_index(e):
+    """np.arange(len(T)[, dtype=..]) / np.arange(T.shape[0]) -> T.index   (the positions 0..n-1 of a freshly re-indexed table)"""
+    import copy
+
+    class P(ast.NodeTransformer):
+        def visit_Call(self, n):
+            self.generic_visit(n)
+            if call_name(n) == "np.arange" and len(n.args) == 1 and not [k for k in n.keywords if k.arg != "dtype"]:
+                a = n.args[0]
+                T = None
+                if isinstance(a, ast.Call) and call_name(a) == "len" and len(a.args) == 1 and isinstance(a.args[0], ast.Name):
+                    T = a.args[0].id
+                elif isinstance(a, ast.Subscript) and isinstance(a.value, ast.Attribute) and a.value.attr == "shape" and U(a.slice) == "0" and isinstance(a.value.value, ast.Name):
+                    T = a.value.value.id
+                if T is not None:
+                    return ast.copy_location(ast.Attribute(value=ast.Name(id=T, ctx=ast.Load()), attr="index", ctx=ast.Load()), n)
+            return n
+    return P().visit(copy.deepcopy(e))
 
 
 def r4(ctx):
@@ -304,6 +343,7 @@ def r4(ctx):
             for n in ast.walk(st):
                 arith = (ast.Add, ast.Sub, ast.Mult, ast.Div, ast.FloorDiv)
                 if isinstance(n, ast.BinOp) and isinstance(n.op, arith) and not (isinstance(spar.get(n), ast.BinOp) and isinstance(spar[n].op, arith)):
+                    n = _positions_as_index(n)
                     tables = {x.value.id for x in ast.walk(n) if isinstance(x, ast.Attribute) and x.attr == "index" and isinstance(x.value, ast.Name)}
                     tenv = {k: v for k, v in env.items() if k not in tables}
                     e = inline(n, tenv)
@@ -319,6 +359,7 @@ def r4(ctx):
                     e2 = subst_columns(e, {k: v for k, v in cols.items() if k[1] == "is_control"}, tenv)
                     cum = [x for x in ast.walk(e2) if isinstance(x, ast.Call) and (attr_tail(x) == "cumsum" or call_name(x) == "np.cumsum")]
                     pred = cum[0].func.value if attr_tail(cum[0]) == "cumsum" and not call_name(cum[0]).startswith("np.") else cum[0].args[0]
+                    pred = _unwrap_array(pred)
                     want = N.key(parse_expr(f"{T}.index - PRED.cumsum()"))
                     import copy
                     e3 = copy.deepcopy(e2)
@@ -329,6 +370,7 @@ def r4(ctx):
                             else:
                                 x.func = ast.Attribute(value=ast.Name(id="PRED", ctx=ast.Load()), attr="cumsum", ctx=ast.Load())
                                 x.args = []
+                                x.keywords = []
                     is_pred = dose_table(pred) is not None or U(pred).endswith("is_control")
                     found.append((U(n), N.key(e3) == want and is_pred, h.site()))
     if not found:
@@ -356,11 +398,18 @@ def r4(ctx):
     head = f"{r1_}.drop_duplicates().sort_values(by='val').reset_index(drop=True)"
     pos_forms = (f"np.arange({t1}.shape[0])", f"np.arange(len({t1}))", f"np.arange(len({t1}.index))", f"{t1}.index", f"np.arange({t1}.val.size)")
     explicit = False
+
+    def _pos_text(x):
+        import copy
+        x = copy.deepcopy(x)
+        if isinstance(x, ast.Call) and call_name(x) == "np.arange":
+            x.keywords = [k for k in x.keywords if k.arg != "dtype"]
+        return U(x).replace(" ", "")
     for n in nb:
         c = n.value if isinstance(n, ast.Expr) and isinstance(n.value, ast.Call) else None
-        if c is not None and attr_tail(c) == "insert" and U(c.func.value) == t1 and len(c.args) == 3 and U(c.args[1]) == "'new_index'" and U(c.args[2]).replace(" ", "") in pos_forms:
+        if c is not None and attr_tail(c) == "insert" and U(c.func.value) == t1 and len(c.args) == 3 and U(c.args[1]) == "'new_index'" and _pos_text(c.args[2]) in pos_forms:
             explicit = True
-        if isinstance(n, ast.Assign) and len(n.targets) == 1 and U(n.targets[0]).replace(" ", "") in (f"{t1}['new_index']", f"{t1}.new_index") and U(n.value).replace(" ", "") in pos_forms:
+        if isinstance(n, ast.Assign) and len(n.targets) == 1 and U(n.targets[0]).replace(" ", "") in (f"{t1}['new_index']", f"{t1}.new_index") and _pos_text(n.value) in pos_forms:
             explicit = True
     if steps == [head] and explicit:
         ctx.ok("R4", f"{f1.site()}::positions-of-sorted-unique", "ids = an explicit position column 0..n-1 of rows.drop_duplicates().sort_values().reset_index(drop=True)")
